@@ -48,7 +48,44 @@ LossVerdict(r) ==
     ELSE IF Checked(r, "obs") /\ QV(o.observations) # e.observations THEN (IF r.obsd.on THEN "ObservationValue" ELSE "UnconfiguredTermNotZero")
     ELSE "ok"
 
+(* ---------------- C06: routing of gradients by the derivative specification ---------------- *)
+(* r.G[t][g]: the gradient of term t w.r.t. group g (a sequence of rationals), measured once with everything selected;
+   r.mask[t][g]: the specification under test; r.obs.grad[g]: gradient of the TOTAL under that specification *)
+ExpectedGrad(r, g) == [k \in DOMAIN r.G[1][g] |->
+                         QSum([t \in DOMAIN r.G |-> IF r.mask[t][g] THEN QV(r.G[t][g][k]) ELSE QI(0)])]
+GradVerdict(r) ==
+    IF r.exc # "" THEN "GradientRaised"
+    ELSE IF \E g \in DOMAIN r.obs.grad : \E k \in DOMAIN r.obs.grad[g] : ~r.obs.grad[g][k].ok THEN "ValueNotExact"
+    ELSE IF \E t \in DOMAIN r.obs.terms : QV(r.obs.terms[t]) # QV(r.ref[t]) THEN "LossValueDependsOnDerivativeKeys"
+    ELSE IF QV(r.obs.total) # QSum([t \in DOMAIN r.ref |-> QV(r.ref[t])]) THEN "LossValueDependsOnDerivativeKeys"
+    ELSE IF \E g \in DOMAIN r.obs.grad : [k \in DOMAIN r.obs.grad[g] |-> QV(r.obs.grad[g][k])] # ExpectedGrad(r, g) THEN
+         (IF \E g \in DOMAIN r.obs.grad : \E k \in DOMAIN r.obs.grad[g] :
+                 QV(r.obs.grad[g][k]) # QI(0) /\ \A t \in DOMAIN r.G : ~r.mask[t][g]
+          THEN "UnselectedPairContributes" ELSE "GradientNotSumOfSelectedTerms")
+    ELSE "ok"
+
+(* ---------------- systems (C13) ---------------- *)
+SysVerdict(r) ==
+    IF r.exc # "" THEN "SystemLossRaised"
+    ELSE LET o == r.obs  e == SysTerms(r) IN
+    IF ~(QOK(o.total) /\ QOK(o.dyn_loss) /\ QOK(o.initial_condition) /\ QOK(o.norm_loss) /\ QOK(o.boundary_loss) /\ QOK(o.observations))
+        THEN "ValueNotExact"
+    ELSE IF QV(o.total) # QSum(<<QV(o.dyn_loss), QV(o.initial_condition), QV(o.norm_loss), QV(o.boundary_loss), QV(o.observations)>>)
+        THEN "TotalNotSumOfTerms"
+    ELSE IF QV(o.dyn_loss) # e.dyn_loss THEN "SystemDynamicTermValue"
+    ELSE IF QV(o.initial_condition) # e.initial_condition THEN "SystemInitialConditionValue"
+    ELSE IF QV(o.boundary_loss) # e.boundary_loss THEN "SystemBoundaryValue"
+    ELSE IF QV(o.observations) # e.observations THEN "SystemObservationValue"
+    ELSE IF QV(o.norm_loss) # e.norm_loss THEN "UnconfiguredTermNotZero"
+    ELSE "ok"
+SysLemmaBad == {k \in DOMAIN Recs : Recs[k].kind = "sysloss" /\ Len(Recs[k].eqs) = 1 /\ Len(Recs[k].nets) = 1
+                                     /\ LET r == Recs[k]  s == SysTerms(r)  p == Terms(PlainOf(r)) IN
+                                        ~(s.dyn_loss = p.dyn_loss /\ s.initial_condition = p.initial_condition
+                                          /\ s.boundary_loss = p.boundary_loss /\ s.observations = p.observations)}
+
 Verdict == CASE Rec.kind = "operator" -> OperatorVerdict(Rec)
+             [] Rec.kind = "sysloss" -> SysVerdict(Rec)
+             [] Rec.kind = "grad" -> GradVerdict(Rec)
              [] Rec.kind = "loss" -> LossVerdict(Rec)
              [] OTHER -> "UnknownKind"
 
@@ -66,7 +103,7 @@ TwinLemma(k) ==
       [] r.twin = "rew" -> (Len(r.w.dyn) = 1 => Dyn(r) = QMul(QI(3), Dyn(b)))
       [] OTHER -> TRUE
 LemmaBad == {k \in DOMAIN Recs : HasTwin(k) /\ ~TwinLemma(k)}
-LemmaReport == tid = 1 /\ viol = "init" => (LemmaBad = {} \/ PrintT(ToJson([tag |-> "LEMMA", bad |-> LemmaBad])))
+LemmaReport == tid = 1 /\ viol = "init" => (LemmaBad \cup SysLemmaBad = {} \/ PrintT(ToJson([tag |-> "LEMMA", bad |-> LemmaBad \cup SysLemmaBad])))
 
 Init == tid \in 1..Len(Recs) /\ viol = "init"
 Step == viol = "init" /\ viol' = Verdict /\ UNCHANGED tid
